@@ -34,10 +34,15 @@ fn dir_of(rel: &str) -> &str {
 
 fn include_tokens(rng: &mut Rng, name_rel_to_includer: &str) -> Vec<Tok> {
     // separator style and quoting
-    let name = if rng.coin() {
-        name_rel_to_includer.replace('/', "\\")
-    } else {
-        name_rel_to_includer.to_string()
+    let name = match rng.below(5) {
+        0 | 1 => name_rel_to_includer.replace('/', "\\"),
+        // both separator styles in one name
+        2 => name_rel_to_includer.replacen('/', "\\", 1),
+        3 if name_rel_to_includer.matches('/').count() >= 2 => {
+            let (head, tail) = name_rel_to_includer.rsplit_once('/').unwrap();
+            format!("{head}\\{tail}")
+        }
+        _ => name_rel_to_includer.to_string(),
     };
     let name_tok = if rng.coin() {
         Tok::string(&name, format!("\"{name}\""))
@@ -442,7 +447,73 @@ fn a2ml_in_include_file_case(rng: &mut Rng, rec: &mut Recorder, scratch: &Path, 
     let _ = std::fs::remove_dir_all(&root);
 }
 
+/// An include file uses, for its own nested include, the relative name by which it was included
+/// itself: relative to its own directory this is another file, not a recursion.
+fn same_relative_name_case(rng: &mut Rng, rec: &mut Recorder, scratch: &Path, case: u64) {
+    let root = scratch.join(format!("c16n_{case}"));
+    let _ = std::fs::remove_dir_all(&root);
+    let levels = rng.urange(2, 3);
+    let (dir, file) = *rng.pick(&[("inc", "part.a2l"), ("sub", "main.a2l"), ("a", "a")]);
+    let rel = format!("{dir}/{file}");
+    let spelled = match rng.below(3) {
+        0 => format!("\"{rel}\""),
+        1 => rel.clone(),
+        _ => format!("{dir}\\{file}"),
+    };
+    let head = "ASAP2_VERSION 1 71\n/begin PROJECT p \"\"\n/begin MODULE m \"\"\n";
+    let tail = "/end MODULE\n/end PROJECT\n";
+    let mut flat = String::from(head);
+    let mut cur = root.clone();
+    std::fs::create_dir_all(&cur).unwrap();
+    std::fs::write(cur.join("main.a2l"), format!("{head}/include {spelled}\n{tail}")).unwrap();
+    for l in 0..levels {
+        cur = cur.join(dir);
+        std::fs::create_dir_all(&cur).unwrap();
+        let body = format!("/begin MEASUREMENT level{l} \"\" UBYTE NO_COMPU_METHOD 0 0 0 255\n/end MEASUREMENT\n");
+        flat.push_str(&body);
+        let nested = if l + 1 < levels { format!("/include {spelled}\n") } else { String::new() };
+        std::fs::write(cur.join(file), format!("{body}{nested}")).unwrap();
+    }
+    flat.push_str(tail);
+    rec.eval();
+    rec.bump("same_relative_name_on_nested_levels");
+    rec.nontrivial(format!("{rel}|{levels}|{spelled}").as_bytes());
+    let w = Json::obj()
+        .with("case", Json::s("nested include directives with the same relative name (different files)"))
+        .with("directive", Json::s(&spelled))
+        .with("levels", Json::UInt(levels as u64));
+    let main_path = root.join("main.a2l");
+    let strict = rng.coin();
+    crate::util::set_budget(200_000);
+    let loaded = guarded(|| a2lfile::load(&main_path, None, strict));
+    crate::util::reset_budget();
+    match loaded {
+        Err((sig, detail)) => rec.violation(&format!("{sig} [same relative include name on nested levels]"), &detail, w),
+        Ok(Err(e)) => rec.violation(
+            &format!("nested include files with the same relative name are rejected: {}", crate::gram::err_class(&e)),
+            &e.to_string(),
+            w,
+        ),
+        Ok(Ok((m, _))) => {
+            if let Ok(Ok((r, _))) = load_str(&flat, false) {
+                if r != m {
+                    rec.violation(
+                        "model loaded through /include differs from the model of the flattened text [same relative include name on nested levels]",
+                        &crate::c01::model_diff(&r, &m),
+                        w,
+                    );
+                }
+            }
+        }
+    }
+    let _ = std::fs::remove_dir_all(&root);
+}
+
 fn fault_case(rng: &mut Rng, rec: &mut Recorder, scratch: &Path, case: u64) {
+    if case % 16 == 2 {
+        same_relative_name_case(rng, rec, scratch, case);
+        return;
+    }
     if case % 4 == 3 {
         shared_include_case(rng, rec, scratch, case);
         return;
@@ -903,7 +974,7 @@ pub fn run(args: &Args, rec: &mut Recorder) {
     let _ = std::fs::remove_dir_all(&scratch);
     for k in ["levels.1", "levels.2", "a2ml_block_with_include", "include_inside_if_data", "fault.missing_file", "fault.directory_instead_of_file",
         "fault.empty_file", "fault.self_inclusion", "fault.mutual_inclusion", "fault.missing_file_in_nested_include",
-        "fault.a2ml_self_inclusion", "fault.a2ml_mutual_inclusion", "fault.a2ml_missing_file", "shared_include.direct", "shared_include.diamond", "a2ml_block_in_include_file"] {
+        "fault.a2ml_self_inclusion", "fault.a2ml_mutual_inclusion", "fault.a2ml_missing_file", "shared_include.direct", "shared_include.diamond", "a2ml_block_in_include_file", "same_relative_name_on_nested_levels"] {
         rec.floor(k, 2);
     }
 }
